@@ -521,8 +521,9 @@ pub fn c14_case(ms: &[Member], l: &mut Local) {
         return;
     }
     // "one packet per member, in order" however the iteration is driven: next / nth / take-count histories
+    // (call sequences up to length 3 on compounds of up to 3 leaves, up to length 2 on larger ones)
     if buf.len() <= 512 && lv.len() <= 6 {
-        super::common::all_iterator_histories(l, &buf, 3);
+        super::common::all_iterator_histories(l, &buf, if lv.len() <= 3 { 3 } else { 2 });
     }
     l.hit("parsed back to its members");
 }
